@@ -199,6 +199,22 @@ CHECKS = {
         "tzid_from_tzinfo returning None or a non-empty str, CPython date arithmetic failure modes, the RFC transcription. 'other': "
         "carrying the contracts through serialiser and parser to equal decoded values composes C03/C05/C06/C08 and is exercised by the grid.",
    technique="contract-based deductive verification: pyvc VCs from the real constructors / _encode / add (z3, loop invariant templates, z3 sequences) + finite table lemmas; bounded API grid stand-in"),
+ "C11": dict(
+   category="other", design_ref="DESIGN.md section 8 C11",
+   text="pyvc / chars on the real bodies: tzid_from_tzinfo ('UTC' when among the ids, None for none, else the first); vDatetime: for "
+        "every datetime exactly one of floating / Z / TZID=id, with the written digits equal to the wall fields (the TZID derived in "
+        "__init__ and the Z written by to_ical agree); vDatetime.from_ical(text, tz) = the text's wall fields localised in tzp.timezone(tz) "
+        "or the given tzinfo; zoned write-then-read returns the same wall fields in the zone named by the TZID; vPeriod / vDDDTypes / "
+        "vDDDLists.from_ical hand the time zone to every part; the real parse-loop body, run symbolically per property name (upper and "
+        "lower case), hands params['TZID'] to the decoder for FREEBUSY and every date-time valued name and to no other; TZP.timezone / "
+        "localize against their contracts; the UTC descriptor's setter stores localize_utc(value), its getter returns it; TZID rules of "
+        "single values, lists and periods are the C02 V1-V3 obligations. fin (complete for the installed tz database, both providers): "
+        "every zone key needs no cleaning, is found, and is identified by its key. Offsets are the providers': round trips at every "
+        "transition of the zones are a labelled bounded stand-in.",
+   note="Trusted: pyvc + chars + z3; datetime.replace / pytz localize keep wall fields, astimezone keeps the instant (CPython / pytz); "
+        "providers' localize bodies by exact statement shape; the tz database installed here. 'other': the offset clause is the provider's "
+        "behaviour and is explored, not proved.",
+   technique="contract-based deductive verification: pyvc/chars VCs on the real tzid / vDatetime / from_ical / parse-loop / TZP / descriptor bodies (z3) + finite lookup lemma over all zone keys; bounded zone-transition stand-in"),
 }
 NA_REASON = "check not built yet (build round in progress; DESIGN.md section 8 describes the planned contracts)"
 
